@@ -237,8 +237,11 @@ def simplify_math_iterators(source: str) -> str:
                 continue
             yield node, _sum_range(arg)
 
+        elif node.func.id != "sum":
+            continue  # The closed forms below are sums
+
         elif core.match_template(arg, basic_collection_template):
-            if any(core.walk(arg, ast.Attribute)):
+            if any(core.walk(arg, ast.Attribute)) or not arg.elts:
                 continue
             if not all(
                 core.match_template(node.func, ast.Name(id="range"))
